@@ -24,7 +24,7 @@ CHECKS = {
                  "non-trivial = tree reached height >= 2 AND a present key was deleted AND a bounded range query ran; distinct = distinct plan JSON. "
                  "kind 'concurrent' = generated (tree size, writer/reader key partition) run under -race"),
         "assumptions": TREE_ASSUME,
-        "jobs": [{"pkg": "c01tree", "run": "TestTreeModel", "kinds": ["treeplan"], "shards_quick": 4, "scale_quick": 0.3, "scale_thorough": 8, "shards_thorough": 16},
+        "jobs": [{"pkg": "c01tree", "run": "TestTreeModel", "kinds": ["treeplan"], "shards_quick": 4, "scale_quick": 0.3, "scale_thorough": 8, "shards_thorough": 16, "fuzz": [("FuzzTreeModel", "treeplan")]},
                  {"pkg": "c01tree", "run": "TestConcurrent", "race": True, "kinds": ["concurrent"], "shards_quick": 2, "scale_quick": 0.5,
                   "scale_thorough": 3, "shards_thorough": 8}],
     },
@@ -39,7 +39,7 @@ CHECKS = {
         "rule": ("rapid-generated plans: 0-2 prefills, then 2-81 steps (Open/Next/Put/Delete/DeleteRange/InsertRun/DrainAllBut/DeleteAll) with position-relative keys; all live iterators are "
                  "drained at the end. non-trivial = a mutation that changed node count or height happened while some iterator was live, un-exhausted and had yielded at least once; distinct = distinct plan JSON"),
         "assumptions": TREE_ASSUME,
-        "jobs": [{"pkg": "c02iter", "kinds": ["iterplan"], "shards_quick": 4, "scale_quick": 0.5, "scale_thorough": 8, "shards_thorough": 16}],
+        "jobs": [{"pkg": "c02iter", "kinds": ["iterplan"], "shards_quick": 4, "scale_quick": 0.5, "scale_thorough": 8, "shards_thorough": 16, "fuzz": [("FuzzIterUnderMutation", "iterplan")]}],
     },
     "C03": {
         "level": "exploration",
@@ -51,7 +51,7 @@ CHECKS = {
         "rule": ("same generator as C01 with the structural walk enabled (every elementary op up to 600 keys, every 16th above, always at op boundaries); "
                  "non-trivial = a node merge was observed (node count dropped) on a tree that reached height >= 3; distinct = distinct plan JSON"),
         "assumptions": TREE_ASSUME,
-        "jobs": [{"pkg": "c03shape", "kinds": ["shapeplan"], "shards_quick": 4, "scale_quick": 0.25, "scale_thorough": 6, "shards_thorough": 16}],
+        "jobs": [{"pkg": "c03shape", "kinds": ["shapeplan"], "shards_quick": 4, "scale_quick": 0.25, "scale_thorough": 6, "shards_thorough": 16, "fuzz": [("FuzzTreeShape", "shapeplan")]}],
     },
     "C05": {
         "level": "exploration",
@@ -252,6 +252,6 @@ CHECKS = {
                  "(hash of its JSON); 'states' counts distinct (cap, front, back) ring states that were wrapped or full"),
         "assumptions": ["verif hook VerifState/VerifSlots reports the real ring buffer (read-only, 12 lines)",
                         "rapid v1.3.0 generator/shrinker; go1.26.8 toolchain"],
-        "jobs": [{"pkg": "c04deque", "kinds": ["deque"], "scale_thorough": 10, "shards_thorough": 16}],
+        "jobs": [{"pkg": "c04deque", "kinds": ["deque"], "scale_thorough": 10, "shards_thorough": 16, "fuzz": [("FuzzDeque", "deque")]}],
     },
 }
